@@ -2,6 +2,7 @@
 from __future__ import annotations
 
 import copy
+import itertools
 import decimal
 from typing import Any, Callable, Optional
 
@@ -203,6 +204,15 @@ def resolve_bad(root: Any, other: Any, op: dict) -> Bad:
         b.what = f'{type(P).__name__}.{p.name} = the {p.name} of another {type(Q).__name__} (still attached there)'
         b.nontrivial = len(w) > 0 or len(getattr(P, p.name)) > 0
         b.call = lambda: setattr(P, p.name, w)
+        return b
+    if k == 'meta-update':
+        # mapping.update with an attached node as a later value: refused, and the keys in front of it are not applied
+        P = OPS.find_model(root, op['cls'], op['mi'], idx)
+        node = _find_attached(other if op.get('src_other') else root, ['ACCOUNT', 'CURRENCY', 'TAG', 'amount'], op.get('sel', 0))
+        b.cls, b.must_raise, b.key = 'a:attached', True, 'attached:meta-update'
+        b.what = f'{type(P).__name__}.meta.update({{"zn1": 5, "zn2": attached {type(node).__name__}, "zn3": "z"}})'
+        b.nontrivial = True
+        b.call = lambda: P.meta.update({'zn1': decimal.Decimal(5), 'zn2': node, 'zn3': 'z'})
         return b
     if k == 'metaval':
         # value-level meta assignment with an attached raw value
@@ -609,6 +619,8 @@ def _gen_bad(g: L.G, root: Any) -> Optional[dict]:
         if not names:
             return None
         cn = g.pick(names)
+        if g.p(0.3):
+            return {'f': 'bad', 'k': 'meta-update', 'cls': cn, 'mi': g.n(0, len(idx[cn]) - 1), 'sel': g.n(0, 50), 'src_other': g.p(0.4)}
         return g.pick([{'f': 'bad', 'k': 'metaval', 'cls': cn, 'mi': g.n(0, len(idx[cn]) - 1), 'key': g.meta_key()[1][:-1], 'sel': g.n(0, 30),
                         'src_other': g.p(0.4)},
                        {'f': 'bad', 'k': 'from_children', 'sel': g.n(0, 30)}])
@@ -695,6 +707,8 @@ def _enum_custom_ctor():
     doc = [[['X', '2000-01-01 custom "a" "s" -3\n2000-01-02 custom "b" 5 +2 USD\n2000-01-03 balance Assets:A  -4 USD\n2000-01-04 custom "c" 7\n']]]
     for which in range(3):
         yield {'dirs': doc, 'dirs2': doc, 'ops': [{'f': 'bad', 'k': 'ctor-duplicate', 'which': which}]}
+    for cls, sel, src_other in itertools.product(('Custom', 'Balance'), range(4), (False, True)):
+        yield {'dirs': doc, 'dirs2': doc, 'ops': [{'f': 'bad', 'k': 'meta-update', 'cls': cls, 'mi': 0, 'sel': sel, 'src_other': src_other}]}
     for sel in range(3):
         for num in ('7', '1 + 2', '-3'):
             yield {'dirs': doc, 'dirs2': doc, 'ops': [{'f': 'bad', 'k': 'ctor-later-attached', 'sel': sel, 'src_other': sel % 2 == 0, 'num': num}]}
